@@ -16,7 +16,7 @@ class PrimEnc(Stream):
     shard = 250
 
     def generate(self, rng, tier):
-        return A.prim_cases(rng, tier)
+        return A.prim_cases(rng, tier, deep_lens=[8192])     # the X.691 specification works on bit lists: few long strings
 
     def coq_case(self, c, o):
         return "(%s, p_empty, %s, %s)" % (A.prim_coq_type(c), A.prim_coq_val(c), A.coq_eobs(o))
